@@ -59,6 +59,22 @@ def step (s : St) (line : String) : St × String :=
       | none => (s, s!"0 ## {dump s.cb} live={liveAllocs s.cb}")
       | some (e, t') => ({ s with cb := t' }, s!"1 freed={e.obj} ## {dump t'} live={liveAllocs t'}")
   | ["freeret", _] => (s, "ok")
+  -- `getpfx k n` / `delpfx k n`: look up / delete the first n bytes of k; the harness passes them through the
+  -- key buffer of the object stored under k (aliasing is invisible to the contract)
+  | ["getpfx", hk, n] =>
+    match parseHex hk, n.toNat? with
+    | some k, some m =>
+      match lookup s.cb (k.take m) with
+      | none => (s, "nil")
+      | some e => (s, s!"#{e.obj}")
+    | _, _ => (s, "bad-op")
+  | ["delpfx", hk, n] =>
+    match parseHex hk, n.toNat? with
+    | some k, some m =>
+      match delete s.cb (k.take m) with
+      | none => (s, s!"0 ## {dump s.cb} live={liveAllocs s.cb}")
+      | some (e, t') => ({ s with cb := t' }, s!"1 freed={e.obj} ## {dump t'} live={liveAllocs t'}")
+    | _, _ => (s, "bad-op")
   | ["walk", n] =>
     match n.toNat? with
     | none => (s, "bad-op")
